@@ -21,7 +21,7 @@ node path for delete_node, up to two insertable segments / loops per position cl
 later, duplicate, not a member), '../' forms, absent and malformed paths; 'narrow' / 'small' / 'mini' keep the first template
 of each class (SEL).  Finding keys: C10|<method>|raises <T>@<where>  or  C10|<method>@<tree|segnode|copy>|<symptom class>.
 """
-import io, multiprocessing, hashlib, traceback
+import io, gc, multiprocessing, hashlib, traceback
 from mc import core, grammar
 
 ID = 'C10'
@@ -488,9 +488,25 @@ def i_struct(node):
                 out.append(('s',) + i_canon_seg(d['segment']))
             else:
                 out.append((d['type'], d['id']))
+            if len(out) > EVENT_CAP:
+                raise TreeTooLarge()
+    except TreeTooLarge:
+        raise
     except Exception as e:
         out.append(('exc', type(e).__name__))
     return tuple(out)
+
+
+class TreeTooLarge(MemoryError):
+    """the event stream of a tree that holds a few hundred nodes has more than EVENT_CAP events: something in it grows without
+    bound (reported like running out of memory, long before that happens)"""
+
+
+EVENT_CAP = 100000
+
+
+MEMKEY = 'C10|resource|a tree grows without bound'
+MEMMSG = 'the event stream of a tree exceeds 100 000 events, or MemoryError under the 6 GB address-space limit of this check, while replaying / observing this history (the trees under test hold a few hundred objects)'
 
 
 def call(fn):
@@ -1380,8 +1396,15 @@ def expand_chunk(hists):
     try:
         for hist in hists:
             _, name, width, depth = hist[0]
-            ms, im = replay(hist)
-            v = battery(ms, im, P.counters)
+            try:
+                ms, im = replay(hist)
+                v = battery(ms, im, P.counters)
+            except MemoryError:
+                ms = im = None
+                gc.collect()
+                P.bad(MEMKEY, {'hist': hist + [('Q',)]}, '%s || state: %s' % (MEMMSG, pretty_hist(hist)))
+                P.n += 1
+                continue
             P.n += 1
             P.out('battery|%s' % ('ok' if not v else 'viol'))
             for fk, msg in v:
@@ -1393,7 +1416,12 @@ def expand_chunk(hists):
                 if not offered(ms, ev):
                     P.counters['not offered in state'] += 1
                     continue
-                viols, outcome = step(ms, im, ev, P.counters)
+                try:
+                    viols, outcome = step(ms, im, ev, P.counters)
+                except MemoryError:
+                    ms = im = None
+                    gc.collect()
+                    viols, outcome = [(MEMKEY, MEMMSG)], 'memory'
                 P.n += 1
                 P.transitions += 1
                 P.out(outcome)
@@ -1401,7 +1429,12 @@ def expand_chunk(hists):
                     for fk, msg in viols:
                         P.bad(fk, {'hist': hist + [ev]}, '%s || history: %s' % (msg, pretty_hist(hist + [ev])))
                     continue
-                succ.append((hist, ev, digest(ms, im)))
+                try:
+                    succ.append((hist, ev, digest(ms, im)))
+                except MemoryError:
+                    ms = im = None
+                    gc.collect()
+                    P.bad(MEMKEY, {'hist': hist + [ev]}, '%s || history: %s' % (MEMMSG, pretty_hist(hist + [ev])))
     except Exception as e:
         return ('HARNESS', ''.join(traceback.format_exception(type(e), e, e.__traceback__)))
     return P, succ
@@ -1722,13 +1755,63 @@ def run_addloop(case):
     return []
 
 
+def _ediff(got, want):
+    for i in range(max(len(got), len(want))):
+        a = got[i] if i < len(got) else None
+        b = want[i] if i < len(want) else None
+        if a != b:
+            return 'first difference at event %d: %r, expected %r (lengths %d vs %d)' % (i, a, b, len(got), len(want))
+    return 'equal'
+
+
+def copyreread_cases():
+    return [{'kind': 'copyreread', 'doc': v['doc'], 'loop': v['loop']} for k, v in sorted(CFG.items())]
+
+
+def run_copyreread(case):
+    """copy() is a pure read of its original: after copying the tree and every loop below it, the original still has the
+    event stream it had, every copy has the stream of its original, and a tree read afresh in the same process equals the
+    first one (nothing shared between trees was written to).  Runs before the searches, in a process of its own."""
+    where = '%s, iter_segments(%s)' % (case['doc'], case['loop'])
+    try:
+        t1 = _fresh(case['doc'], case['loop'])
+        s1 = i_struct(t1)
+        loops = [t1]
+        k = 0
+        while k < len(loops):
+            loops += [c for c in loops[k].children if getattr(c, 'type', None) == 'loop']
+            k += 1
+        out = []
+        for rnd in (1, 2):
+            for n in loops:
+                before = i_struct(n)
+                st, K = call(lambda: n.copy())
+                if st == 'exc':
+                    return [('C10|copy-law|copy raises %s' % eclass(K), '%s: copy() of loop %s raised %r' % (where, n.id, K))]
+                if i_struct(K) != before:
+                    out.append(('C10|copy-law|copy differs from its original', '%s: the copy of loop %s has another event stream than its original: %s' % (where, n.id, _ediff(list(i_struct(K)), list(before)))))
+                if i_struct(n) != before:
+                    out.append(('C10|copy-law|original changed by copy()', '%s: loop %s has another event stream after copy() than before: %s' % (where, n.id, _ediff(list(i_struct(n)), list(before)))))
+                if out:
+                    return out[:2]
+        if i_struct(t1) != s1:
+            out.append(('C10|copy-law|original changed by copy()', '%s: the tree has another event stream after its loops were copied: %s' % (where, _ediff(list(i_struct(t1)), list(s1)))))
+        t2 = _fresh(case['doc'], case['loop'])
+        if i_struct(t2) != s1:
+            out.append(('C10|copy-law|a tree read afterwards differs', '%s: the same document read again in this process, after copies were made of the first tree: %s' % (where, _ediff(list(i_struct(t2)), list(s1)))))
+        return out[:2]
+    except MemoryError:
+        gc.collect()
+        return [(MEMKEY, '%s: %s' % (where, MEMMSG))]
+
+
 def work_transplant(cases):
     _bind()
     P = core.Part()
     for case in cases:
         P.n += 1
         P.out('%s|%s|%s' % (case['kind'], case['doc'], case.get('delete') or case.get('filler') or case.get('loop') if case['kind'] != 'transplant' else ('forward' if case['a'] < case['b'] else 'backward')))
-        for k, m in (run_prefix(case) if case['kind'] == 'prefix' else run_setpad(case) if case['kind'] == 'setpad' else run_addloop(case) if case['kind'] == 'addloop' else run_transplant(case)):
+        for k, m in (run_copyreread(case) if case['kind'] == 'copyreread' else run_prefix(case) if case['kind'] == 'prefix' else run_setpad(case) if case['kind'] == 'setpad' else run_addloop(case) if case['kind'] == 'addloop' else run_transplant(case)):
             P.bad(k, case, m)
     return P
 
@@ -1739,19 +1822,37 @@ def evaluate(case):
         for name in CFG:
             setup(name)
         return run_transplant(case)
+    if case.get('kind') == 'copyreread':
+        _bind()
+        for name in CFG:
+            setup(name)
+        return run_copyreread(case)
     if case.get('kind') in ('prefix', 'setpad', 'addloop'):
         _bind()
         for name in CFG:
             setup(name)
         return run_prefix(case) if case['kind'] == 'prefix' else run_setpad(case) if case['kind'] == 'setpad' else run_addloop(case)
     hist = [tup(e) for e in case['hist']]
-    ms, im = replay(hist[:-1])
-    viols, outcome = step(ms, im, hist[-1])
+    try:
+        ms, im = replay(hist[:-1])
+        viols, outcome = step(ms, im, hist[-1])
+        if not viols:
+            digest(ms, im)
+    except MemoryError:
+        ms = im = None
+        gc.collect()
+        return [(MEMKEY, MEMMSG)]
     return [(k, m) for k, m in viols]
 
 
 def run(R):
     _bind()
+    # the trees under test are a few hundred objects; a change that makes one of them grow without bound (a list doubled on every
+    # copy ...) must end in a MemoryError inside the step that caused it -- which is then reported like any other exception --
+    # not in a machine out of memory.  The limit is inherited by the forked workers.
+    import resource
+    lim = 6 << 30
+    resource.setrlimit(resource.RLIMIT_AS, (lim, lim))
     if R.thorough:
         plan = [('837p:2300', 'wide', 2), ('834:2000', 'wide', 2), ('837p:2300', 'narrow', 4), ('834:2000', 'narrow', 4),
                 ('837p:2000B/2300', 'narrow', 3), ('837p:2000B/2300', 'tiny', 4)]
@@ -1765,6 +1866,13 @@ def run(R):
         if i_ser(im.T) != m_flat(ms.T):
             R.harness_errors.append('initial tree of %s differs from the model: %s' % (name, diff_msg(i_ser(im.T), m_flat(ms.T))))
             return R.finish(LEVEL, 'n/a', exhaustive=False)
+    # first, in a process of its own: copy() writes to nothing that trees share.  A violation here means that the state of a
+    # process is corrupted by the very calls the searches make, so they are not run on top of it
+    R.pmap(work_transplant, [[c] for c in copyreread_cases()])
+    if R.total.viol:
+        R.total.counters['searches not run: copy() corrupts state shared between trees (see the copy-law violations)'] += 1
+        R.bounds = {'copy-law': 'only this family was run'}
+        return R.finish(LEVEL, 'copy law only (violated)', exhaustive=False)
     stats = []
     for name, width, depth in plan:
         stats.append(search(R, name, width, depth, max_states=400000))
@@ -1773,6 +1881,7 @@ def run(R):
     R.pmap(work_transplant, core.chunks(tc, 8))
     R.cov['transplant_cases'] = len(tc)
     R.bounds = {
+        'copy-law': 'for each of the three trees: copy() of the tree and of every loop below it, twice over; original, copies and a tree read afterwards keep the event stream of iterate_loop_segments',
         'addloop': 'add_loop on every loop instance (root and descendants) of the trees %r with the opening segment of every child loop its map node allows: the children must stay in map order' % (ADDLOOP_TREES,),
         'setpad': 'for every child segment of every instance of the repeated loops: set the element three positions past its end, then a component (1, 2) of each of the two positions created on the way -- nothing else may change',
         'prefix': 'for every non-anchor child segment of every instance of the repeated loops: add the same segment extended by one element, then delete_segment the longer / the shorter one -- exactly the named one must go',
